@@ -17,7 +17,8 @@ RULE = ("datasets n 15..40 with a main cluster, 0-2 planted far groups and 0-3 f
         "Coq: stored-edge predicate, NaN / disconnected_vertices masks from the model's row sums, and (pairwise-distinct exact paths) the whole graph of graph_cut. "
         "Non-trivial: a cut removed an entry, a vertex is isolated, most are isolated, threshold equals a distance, default table threshold active, far transform row.")
 
-KINDS = ["euclidean", "cosine", "jaccard", "hellinger", "pre_dense", "pre_sparse", "pre_sparse_part", "approx", "sp_euclidean", "sp_jaccard"]
+KINDS = ["euclidean", "cosine", "jaccard", "hellinger", "pre_dense", "pre_sparse", "pre_sparse_part", "approx", "sp_euclidean", "sp_jaccard",
+         "knn_euclidean", "knn_jaccard"]      # knn_*: the caller supplies exact kNN tables (precomputed_knn) that list neighbours at / beyond t
 QS = [0.05, 0.30, 0.60, 0.95, "above", "default", "tie"]
 
 
@@ -45,7 +46,8 @@ def pdist64(metric, X, Y=None):
 
 def base_metric(kind):
     return {"euclidean": "euclidean", "cosine": "cosine", "jaccard": "jaccard", "hellinger": "hellinger", "pre_dense": "euclidean",
-            "pre_sparse": "euclidean", "pre_sparse_part": "euclidean", "approx": "euclidean", "sp_euclidean": "euclidean", "sp_jaccard": "jaccard"}[kind]
+            "pre_sparse": "euclidean", "pre_sparse_part": "euclidean", "approx": "euclidean", "sp_euclidean": "euclidean", "sp_jaccard": "jaccard",
+            "knn_euclidean": "euclidean", "knn_jaccard": "jaccard"}[kind]
 
 
 def gen_points(rng, npr, metric):
@@ -195,6 +197,15 @@ def do_fit(case):
               random_state=case["seed"], local_connectivity=case["lc"], disconnection_distance=case["t"])
     if case["kind"] == "approx":
         kw["force_approximation_algorithm"] = True
+    if case["kind"].startswith("knn_"):
+        # exact tables computed by the caller (self first, then the other samples by distance, ties by index), as float32 / int64 arrays
+        D, n, k = case["D"], case["D"].shape[0], case["k"]
+        idx = np.empty((n, k), dtype=np.int64)
+        for i in range(n):
+            idx[i] = [i] + [int(j) for j in np.argsort(D[i], kind="stable") if j != i][:k - 1]
+        dist = np.take_along_axis(D, idx, axis=1).astype(np.float32)
+        case["knn_tables"] = (idx.copy(), dist.copy())
+        kw["precomputed_knn"] = (idx, dist)
     return umap.UMAP(**kw).fit(fit_input(case))
 
 
@@ -442,7 +453,7 @@ def run_case(ctx, rng, npr, case, P, terms, cases, tr_terms, tr_cases):
     ncut = int((offdiag(case["D"]) >= t).sum())
     tags = [tg for tg, f in (("cut_active", ncut > 0), ("isolated", iso.any()), ("most_isolated", iso.sum() * 2 > n), ("cut_but_none_isolated", ncut > 0 and not iso.any()),
                              ("t_equals_a_distance", case["exact_t"]), ("table_default", case["t"] is None and math.isfinite(t)), ("r0", case["r"] == 0),
-                             ("sparse_input", case["kind"] in ("pre_sparse", "pre_sparse_part", "sp_euclidean", "sp_jaccard")), ("approx", case["kind"] == "approx")) if f]
+                             ("sparse_input", case["kind"] in ("pre_sparse", "pre_sparse_part", "sp_euclidean", "sp_jaccard")), ("approx", case["kind"] == "approx"), ("precomputed_knn_tables", case["kind"].startswith("knn_"))) if f]
     ctx.tag((case["kind"], case["X"].tobytes(), case["k"], case["r"], str(case["t"])), tags)
     ctx.count("kind_" + case["kind"]); ctx.count("q_" + case["q"]); ctx.count("r=%s" % case["r"]); ctx.count("isolated_fraction_%d0%%" % int(10 * iso.sum() / n))
     ctx.sample(dict(kind=case["kind"], n=n, k=case["k"], r=case["r"], t=case["t"], t_effective=t, isolated=np.flatnonzero(iso).tolist(), edges=int(G.nnz), cut_entries=ncut), 6)
@@ -451,7 +462,7 @@ def run_case(ctx, rng, npr, case, P, terms, cases, tr_terms, tr_cases):
     ctx.count("coq_mode_%d" % mode)
     terms.append(fit_term(case, mode, G, emb, dv, P["n_iter"])); cases.append(desc)
     # transform
-    if case["kind"] in ("pre_sparse", "pre_sparse_part", "sp_euclidean", "sp_jaccard"):
+    if case["kind"] in ("pre_sparse", "pre_sparse_part", "sp_euclidean", "sp_jaccard") or case["kind"].startswith("knn_"):
         return
     batches = [("mixed", 3, 2), ("near", 3, 0)]
     if math.isfinite(t):
@@ -543,7 +554,8 @@ def run(ctx):
     plan = []
     if ctx.tier == "quick":
         must = {"pre_dense": "tie", "pre_sparse": "tie", "pre_sparse_part": "tie", "jaccard": "default", "hellinger": "tie", "sp_jaccard": "default",
-                "cosine": "default", "euclidean": 0.30, "approx": 0.30, "sp_euclidean": 0.05}     # the case each path is most sensitive to, every run
+                "cosine": "default", "euclidean": 0.30, "approx": 0.30, "sp_euclidean": 0.05,
+                "knn_euclidean": 0.30, "knn_jaccard": "default"}     # the case each path is most sensitive to, every run
         for kind in KINDS:
             qs = [q for q in QS if q != must[kind]]; rng.shuffle(qs)
             plan += [(kind, must[kind])] + [(kind, q) for q in qs[:2]]
